@@ -415,7 +415,15 @@ class SymReal:
         return self.__int__()
 
     def __round__(self, n=None):
-        raise EngineUnsupported("round() of a symbolic real")
+        if n is not None:
+            raise EngineUnsupported("round() of a symbolic real to digits")
+        # Python rounds half to even: floor(x + 1/2), minus one when x is exactly half-way and that floor is odd
+        from fractions import Fraction
+
+        f = tm.floor(tm.add(self.t, tm.const(Fraction(1, 2))))
+        half = tm.eq(tm.sub(tm.add(self.t, tm.const(Fraction(1, 2))), f), tm.ZERO)
+        odd = tm.ne(tm.scale(tm.floor(tm.scale(f, Fraction(1, 2))), 2), f)
+        return SymInt(tm.ite(tm.and_(half, odd), tm.sub(f, tm.ONE), f))
 
     def __bool__(self):
         return bool(SymBool(tm.ne(self.t, tm.ZERO)))
